@@ -131,6 +131,9 @@ pub struct Bcast {
     pub global: bool,
     pub final_only: bool,
     pub nested: bool,
+    /// set the options on the builder before (true) or after (false) giving it the page range
+    #[serde(default)]
+    pub options_first: bool,
 }
 
 fn bcast() -> impl Strategy<Value = Bcast> {
@@ -155,9 +158,9 @@ fn bcast() -> impl Strategy<Value = Bcast> {
         proptest::option::weighted(0.5, any::<u16>()),
         any::<bool>(),
         any::<bool>(),
-        any::<bool>(),
+        (any::<bool>(), any::<bool>()),
     )
-        .prop_map(|((count_max, nested_supported, nasid, huge), range, end_override, pcid, asid, global, final_only, nested)| Bcast {
+        .prop_map(|((count_max, nested_supported, nasid, huge), range, end_override, pcid, asid, global, final_only, (nested, options_first))| Bcast {
             count_max,
             nested_supported,
             nasid,
@@ -169,6 +172,7 @@ fn bcast() -> impl Strategy<Value = Bcast> {
             global,
             final_only,
             nested,
+            options_first,
         })
 }
 
@@ -217,47 +221,66 @@ fn bcast_run<S: x86_64::structures::paging::page::NotGiantPageSize>(b: &Bcast, o
     if page_range.is_none() {
         return bcast_no_range(b, &inv, obs);
     }
-    let mut builder = inv.build().pages(page_range.unwrap());
-    if let Some(p) = b.pcid {
-        unsafe { builder.pcid(Pcid::new(p).unwrap()) };
-    }
     let mut asid_ok = None;
-    if let Some(a) = b.asid {
-        let r = unsafe { builder.asid(a) }.map(|_| ());
-        let accept = (a as u32) < b.nasid;
-        match (&r, accept) {
-            (Ok(()), true) => asid_ok = Some(a),
-            (Err(e), false) => {
-                ensure_eq!((e.asid, e.nasid), (a, b.nasid), "AsidOutOfRangeError fields");
-                obs.label("asid-rejected");
-            }
-            _ => return Err(format!("asid({}) with nasid {}: accepted={} but result {:?}", a, b.nasid, accept, r.is_ok())),
-        }
-    }
-    if b.global {
-        builder.include_global();
-    }
-    if b.final_only {
-        builder.final_translation_only();
-    }
     let mut nested = false;
-    let builder = if b.nested {
-        let r = outcome(move || builder.include_nested_translations());
-        match (r, b.nested_supported) {
-            (Outcome::Ret(bb), true) => {
-                nested = true;
-                bb
+    // the options may be set before or after the builder is given its page range
+    macro_rules! set_options {
+        ($builder:ident) => {{
+            if let Some(p) = b.pcid {
+                unsafe { $builder.pcid(Pcid::new(p).unwrap()) };
             }
-            (Outcome::Panic(_), false) => {
-                obs.label("nested-unsupported-panics");
-                obs.nontrivial(&("nested-unsupported", b.count_max));
-                return Ok(());
+            if let Some(a) = b.asid {
+                let r = unsafe { $builder.asid(a) }.map(|_| ());
+                let accept = (a as u32) < b.nasid;
+                match (&r, accept) {
+                    (Ok(()), true) => asid_ok = Some(a),
+                    (Err(e), false) => {
+                        ensure_eq!((e.asid, e.nasid), (a, b.nasid), "AsidOutOfRangeError fields");
+                        obs.label("asid-rejected");
+                    }
+                    _ => return Err(format!("asid({}) with nasid {}: accepted={} but result {:?}", a, b.nasid, accept, r.is_ok())),
+                }
             }
-            (Outcome::Ret(_), false) => return Err("include_nested_translations() without processor support must panic".into()),
-            (Outcome::Panic(m), true) => return Err(format!("include_nested_translations() panicked although supported: {}", m)),
-        }
+            if b.global {
+                $builder.include_global();
+            }
+            if b.final_only {
+                $builder.final_translation_only();
+            }
+        }};
+    }
+    macro_rules! set_nested {
+        ($builder:ident) => {{
+            if b.nested {
+                let r = outcome(move || $builder.include_nested_translations());
+                match (r, b.nested_supported) {
+                    (Outcome::Ret(bb), true) => {
+                        nested = true;
+                        bb
+                    }
+                    (Outcome::Panic(_), false) => {
+                        obs.label("nested-unsupported-panics");
+                        obs.nontrivial(&("nested-unsupported", b.count_max));
+                        return Ok(());
+                    }
+                    (Outcome::Ret(_), false) => return Err("include_nested_translations() without processor support must panic".into()),
+                    (Outcome::Panic(m), true) => return Err(format!("include_nested_translations() panicked although supported: {}", m)),
+                }
+            } else {
+                $builder
+            }
+        }};
+    }
+    let builder = if b.options_first {
+        let mut pre = inv.build();
+        set_options!(pre);
+        let pre = set_nested!(pre);
+        obs.label("options-before-pages");
+        pre.pages(page_range.unwrap())
     } else {
-        builder
+        let mut post = inv.build().pages(page_range.unwrap());
+        set_options!(post);
+        set_nested!(post)
     };
     cp.clear_log();
     let r = outcome(|| builder.flush());
@@ -433,6 +456,7 @@ fn bcast_reproduces() -> bool {
         global: false,
         final_only: false,
         nested: false,
+        options_first: false,
     };
     let mut o = Obs::default();
     let r = bcast_run::<Size4KiB>(&b, &mut o);
